@@ -28,6 +28,16 @@ def contracts_for(pid, only=None):
             if only and only not in c.name:
                 continue
             out.append(c)
+    # a lemma over contracts is proved only together with the lemmas it cites: pull those in whatever property they are listed under
+    by_name = {c.name: c for c in REG.values()}
+    todo = list(out)
+    while todo and not only:
+        c = todo.pop()
+        for u in c.ghost.get("uses", []) if c.ghost.get("lemma") else []:
+            d = by_name.get(u)
+            if d is not None and d not in out and not d.trusted and not d.bounded_only:
+                out.append(d)
+                todo.append(d)
     return out
 
 
